@@ -471,11 +471,14 @@ def _apply_operation(
         if nside_coverage is None:
             nside_coverage = m.nside_coverage
             nside_sparse = m._nside_sparse
+            sentinel = m._sentinel
             if dtype_out is None:
                 dtype = m._sparse_map.dtype
             else:
                 dtype = dtype_out
-            sentinel = m._sentinel
+                if issubclass(np.dtype(dtype).type, np.floating) and m.is_integer_map:
+                    # The sentinel of an integer map, expressed in the output type.
+                    sentinel = float(sentinel)
             is_wide_mask = m._is_wide_mask
             wide_mask_width = m._wide_mask_width
         else:
